@@ -91,6 +91,9 @@ Lemma sweep_rec_ok_c :
   on_st the_nsf (fun s => all_recs s (fun r => implb (has_sld r) (rec_okb_r the_nd r))) = true.
 Proof. vm_compute. reflexivity. Qed.
 
+(* the closed constants that evaluate whole tables are unfolded last by the conversion *)
+Local Strategy opaque [the_nd the_nsf the_tbl the_dens the_env].
+
 Theorem the_nd_ok : forall z a, has_sld (nd_rec the_nd z a) = true -> rec_okb the_nd z a = true.
 Proof.
   intros z a H. destruct the_nsf_loaded as [s E]. unfold rec_okb.
@@ -154,4 +157,120 @@ Proof.
       apply existsb_exists in Hex. destruct Hex as (p & Hin & Hp). exists p. split; [exact Hin|].
       destruct (has_data D (fst p)); [discriminate|reflexivity].
   - apply (missing_gives_none D s density natural_density ws rho Hrho).
+Qed.
+
+(* ------------------------------------------------------------------ element / isotope queried directly *)
+(* atoms_of of the one-atom formula *)
+Lemma atoms_of_one : forall a, atoms_of [(1%Q, FAtom a)] = [(a, Qred (0 + 1 * 1)%Q)].
+Proof. intro a. reflexivity. Qed.
+
+Definition same_numbers (x y : outs * list compE) : Prop :=
+  map ev (outs_list (fst x)) = map ev (outs_list (fst y)).
+
+Section OneAtom.
+  Variable D : ndata.
+  Variables z a : Z.
+  Let atom := mkAtom z a 0.
+  Variables rho nd : Q.
+  Hypothesis Hsld : has_sld (nd_rec D z a) = true.
+  Hypothesis Hdens : e_density (nd_env D) atom = Some rho.
+  Hypothesis Hnd : nd_numdens D z = Some nd.
+  Hypothesis Hmass : (0 < e_mass (nd_env D) atom)%Q.
+  Hypothesis Hrho : (0 < rho)%Q.
+  (* number density x atomic mass = density x N_A *)
+  Hypothesis Hrel : Q2R nd * Q2R (e_mass (nd_env D) atom) = Q2R rho * Q2R NAq.
+
+  Lemma one_atom_at : forall w o ps, atom_at D z a nd w = Some (o, ps) ->
+    exists o' ps', compound_at D [(atom, Qred (0 + 1 * 1)%Q)] rho w = Some (o', ps') /\
+                   map ev (outs_list o) = map ev (outs_list o').
+  Proof.
+    intros w o ps H. unfold atom_at in H. unfold compound_at, atom_piece. cbn [map fst snd az aa atom].
+    destruct (scattering_by_wavelength D z a w) as [[[re im] ss]|]; [|discriminate].
+    cbn [bind fst snd all_some] in *. inversion H; subst o ps. clear H.
+    eexists. eexists. split; [reflexivity|].
+    unfold compound_parts, calc5, acc_sum. cbn [fold_left ce_n ce_m ce_re ce_im ce_ss].
+    rewrite !ev_calculate_scattering. cbn [evalR]. rewrite !ev_cq, !ev_ez, !Q2R_Qred.
+    set (m := Q2R (e_mass (nd_env D) (mkAtom z a 0))) in *.
+    assert (Hm : 0 < m) by (apply Q2R_pos; exact Hmass).
+    assert (Hr : 0 < Q2R rho) by (apply Q2R_pos; exact Hrho).
+    pose proof NA_pos as HNA.
+    replace (Q2R (0 + 1 * 1)) with 1 by (unfold Q2R; cbn; lra).
+    assert (HN : Q2R nd * Q2R E24m = (0 + 1) / ((0 + m * 1) / Q2R rho / Q2R NAq * Q2R E24)).
+    { rewrite Q2R_E24. replace (Q2R E24m) with (/ (100000000 * 100000000 * 100000000)).
+      - fold atom in Hrel. fold m in Hrel.
+        replace (Q2R nd) with (Q2R rho * Q2R NAq / m) by (rewrite <- Hrel; field; lra).
+        field. repeat split; lra.
+      - unfold E24m, Q2R. cbn [Qnum Qden]. change (Z.pos (10 ^ 24)) with (100000000 * 100000000 * 100000000)%Z.
+        rewrite !mult_IZR. lra. }
+    rewrite HN.
+    replace ((0 + 1 * ev re) / (0 + 1)) with (ev re) by field.
+    replace ((0 + 1 * ev im) / (0 + 1)) with (ev im) by field.
+    replace ((0 + 1 * ev ss) / (0 + 1)) with (ev ss) by field.
+    reflexivity.
+  Qed.
+
+  Theorem atom_equals_one_atom_compound : forall ws va,
+    atom_scattering D z a ws = OVals va ->
+    exists vc, neutron_scattering D [(1%Q, FAtom atom)] None None ws = OVals vc /\
+               Forall2 same_numbers va vc.
+  Proof.
+    intros ws va H. unfold atom_scattering in H. rewrite Hsld, Hnd in H. cbn [negb] in H.
+    destruct (all_some (map (atom_at D z a nd) ws)) as [va'|] eqn:Ea; [|discriminate].
+    inversion H; subst va'. clear H.
+    unfold neutron_scattering, density_of_compound. rewrite atoms_of_one. rewrite Hdens.
+    cbn [forallb fst]. unfold has_data. cbn [az aa atom]. rewrite Hsld. cbn [negb andb].
+    assert (Hv : Qeq_bool (rweight (e_mass (nd_env D)) [(atom, Qred (0 + 1 * 1)%Q)] * rho) 0 = false).
+    { destruct (Qeq_bool _ 0) eqn:E; [|reflexivity]. exfalso. apply Qeq_bool_iff in E.
+      apply Qeq_eqR in E. rewrite Q2R_mult in E. unfold rweight in E. cbn [fold_left fst snd] in E.
+      rewrite Q2R_Qred, Q2R_plus, Q2R_mult, Q2R_Qred in E.
+      replace (Q2R (0 + 1 * 1)) with 1 in E by (unfold Q2R; cbn; lra).
+      rewrite !RMicromega.Q2R_0 in E.
+      assert (0 < Q2R (e_mass (nd_env D) atom)) by (apply Q2R_pos; exact Hmass).
+      assert (0 < Q2R rho) by (apply Q2R_pos; exact Hrho). nra. }
+    rewrite Hv.
+    revert va Ea. induction ws as [|w r IH]; intros va Ea; cbn [map all_some] in *.
+    - inversion Ea. eexists. split; [reflexivity|constructor].
+    - destruct (atom_at D z a nd w) as [[o ps]|] eqn:E1; [|discriminate].
+      destruct (all_some (map (atom_at D z a nd) r)) as [va'|] eqn:Er; [|discriminate].
+      inversion Ea; subst va.
+      destruct (one_atom_at w o ps E1) as (o' & ps' & Ec & Heq). rewrite Ec.
+      destruct (IH va' eq_refl) as (vc' & Hvc & Hall).
+      destruct (all_some (map (compound_at D [(atom, Qred (0 + 1 * 1)%Q)] rho) r)) as [vc''|]; [|discriminate].
+      inversion Hvc; subst vc''. eexists. split; [reflexivity|]. constructor; [exact Heq|exact Hall].
+  Qed.
+End OneAtom.
+
+(* the relation "number density x atomic mass = density x N_A" holds for every element and isotope
+   of any mass/density tables: the isotope's density is the element's scaled by the mass ratio,
+   and the number density used is the element's *)
+Theorem number_density_relation : forall os t d z a rho nd,
+  let D := nd_with (Some os) (Some t) (Some d) in
+  e_density (nd_env D) (mkAtom z a 0) = Some rho ->
+  nd_numdens D z = Some nd ->
+  (0 < e_mass (nd_env D) (mkAtom z a 0))%Q ->
+  Q2R nd * Q2R (e_mass (nd_env D) (mkAtom z a 0)) = Q2R rho * Q2R NAq.
+Proof.
+  intros os t d z a rho nd D Hrho Hnd Hm. unfold D, nd_with in *. cbn [nd_env nd_numdens] in *.
+  unfold env_with in *. cbn [e_density e_mass az aa aq] in *.
+  unfold numdens_of in Hnd.
+  assert (Hme : forall q, Q2R (q - inject_Z 0 * ME) = Q2R q).
+  { intro q. apply Qeq_eqR. unfold inject_Z. ring. }
+  rewrite Hme in *.
+  destruct (density_of t d z 0) as [r| |] eqn:Er; try discriminate.
+  destruct (mass_of t z 0) as [me| |] eqn:Eme; try discriminate.
+  destruct (Qeq_bool me 0) eqn:Ez; [discriminate|]. inversion Hnd; subst nd. clear Hnd.
+  rewrite Q2R_Qred, Q2R_mult.
+  assert (Hme0 : Q2R me <> 0).
+  { intro E. assert (me == 0)%Q. { apply eqR_Qeq. rewrite E. symmetry. apply RMicromega.Q2R_0. }
+    apply Qeq_bool_iff in H. congruence. }
+  rewrite Q2R_div' by exact Hme0.
+  unfold density_of in Hrho, Er. destruct (dens_get d z) as [orho|]; [|discriminate].
+  rewrite Z.eqb_refl in Er.
+  destruct (Z.eqb a 0) eqn:Ea.
+  - apply Z.eqb_eq in Ea. subst a. rewrite Eme in *. cbn [q_of] in *.
+    destruct orho as [r0|]; [|discriminate]. inversion Er; subst r0. inversion Hrho; subst rho. field. exact Hme0.
+  - destruct orho as [r0|]; [|discriminate]. inversion Er; subst r0.
+    rewrite Eme in Hrho. destruct (mass_of t z a) as [mi| |] eqn:Emi; try discriminate.
+    rewrite Ez in Hrho. inversion Hrho; subst rho. cbn [q_of].
+    rewrite Q2R_Qred, Q2R_mult, Q2R_div' by exact Hme0. field. exact Hme0.
 Qed.
